@@ -160,7 +160,8 @@ def endpoint_stage(out, cases, rng):
         ct = ex.get("resp_ctype")
         chosen = {"application/json": 1, "application/x-jackson-smile": 2}.get(ct, 0)
         if ex.get("server_error") is None and chosen == 0:
-            raise vc.ToolError("unexpected response Content-Type %r" % ct)
+            out.violation("C11:endpoint:unregistered", "Accept lines %s through a generated endpoint: the response is labelled %r, which is no registered encoding" % (lines, ct), rep)
+            continue
         if not prop_ok(c, chosen):
             out.violation("C11:endpoint:%s" % ("not-permitted" if chosen else "none-chosen"),
                           "Accept lines %s through a generated endpoint: encoding %s chosen, the property demands %s" % (
